@@ -57,7 +57,12 @@ def harness(cfg, B):
             model.initdisc(mesh)
         else:
             model = fd.euler.euler2d(gamma=g)
-            mesh = fd.mesh2d.mesh2d(n, 1, B.pos('lx'), B.pos('ly'))
+            mesh = cm.mesh2d(B, fd, n, 1, B.pos('lx'), B.pos('ly'))
+        # other model objects created AFTER the one under test: the registries of variables are per object, not shared
+        fd.euler.euler2d(gamma=B.const('5/3'))
+        fd.euler.euler1d(gamma=B.const('5/3'))
+        fd.euler.nozzle(lambda x: 1 + 0 * x, gamma=B.const('5/3'))
+        fd.shallowwater.shallowwater1d(g=B.const(3))
         P_ = [rho, u, p]
         P0 = [x.copy() for x in P_]          # pristine copies: the conversions must not modify the arrays they are given
         Q = model.prim2cons(P_)
